@@ -1553,6 +1553,13 @@ func (w *envelopingWriter) writeBytes(data []byte) (int, error) {
 
 func (w *envelopingWriter) handleEnvelopeWritten() error {
 	w.writingEnvelope = false
+	if w.rw.op.serverEnveloper == nil {
+		// The server's protocol has no envelopes: its body was a single message
+		// of the declared length, and that is complete. There is no next message.
+		err := errors.New("handler wrote more bytes than the declared content length")
+		w.rw.reportError(err)
+		return err
+	}
 	env, err := w.rw.op.serverEnveloper.decodeEnvelope(w.env)
 	if err != nil {
 		err = malformedRequestError(err)
